@@ -68,7 +68,18 @@ func H_C16_Depth(v *sym.V) {
 	if c16a.Entries[which].HasDepth {
 		d = v.Choice("depth", 4)
 	}
-	c16check(v, which, d, true)
+	// shallow, or more frames above the caller than one capture buffer holds
+	pad := []int{0, 40}[v.Choice("pad", 2)]
+	c16pad(pad, func() { c16check(v, which, d, true) })
+}
+
+//go:noinline
+func c16pad(n int, f func()) {
+	if n > 0 {
+		c16pad(n-1, f)
+		return
+	}
+	f()
 }
 
 // H_C16_Algebra: for a symbolic 64-bit depth, the skip value reaching
